@@ -443,6 +443,23 @@ func main() {
 	sort.Strings(rows)
 	L.WriteString(strings.Join(rows, ",\n") + "]\n")
 
+	// ---- SetResources: the engine calls it makes, in source order (every call whose receiver is pe)
+	if fd, ok := funcs(res)["PolicyEngine.SetResources"]; ok {
+		var calls []string
+		ast.Inspect(fd.Body, func(n ast.Node) bool {
+			if c, ok := n.(*ast.CallExpr); ok {
+				if t := text(c.Fun); strings.HasPrefix(t, "pe.") {
+					calls = append(calls, leanStr(t))
+				}
+			}
+			return true
+		})
+		fmt.Fprintf(&L, "\n/-- the calls on the engine made by SetResources, in source order -/\ndef setResourcesCalls : List String := [%s]\n", strings.Join(calls, ", "))
+	} else {
+		broken = append(broken, "PolicyEngine.SetResources not found")
+		L.WriteString("\ndef setResourcesCalls : List String := []\n")
+	}
+
 	// ---- dereference sites
 	anchored := []string{"pkg/netpol/eval/internal/k8s/pod.go", "pkg/netpol/connlist/internal/ingressanalyzer/ingress_analyzer.go",
 		"pkg/netpol/eval/check.go", "pkg/netpol/eval/resources.go", "pkg/netpol/eval/internal/k8s/netpol.go",
